@@ -4,11 +4,20 @@
  "file": "attr.c", "function": "gnuattr", "also_functions": ["gnuattrspec", "parseattr", "strip"],
  "properties": {"C10": "contract", "C06": "contract", "C19": "contract"},
  "mode": "harness",
- "unwind": 12,
- "variants": {"k0": ["-DV_K=0"], "k1": ["-DV_K=1"], "k2": ["-DV_K=2"]},
- "canary_variant": "k2",
+ "unwind": 12, "unwindset": ["gnuattr.0:4", "gnuattrspec.0:4", "parseattr.0:7", "harness.0:3", "harness.1:3"],
+ "variants": {"k0":        ["-DV_K=0", "-DV_N0=0", "-DV_E00=0", "-DV_E01=0", "-DV_N1=0", "-DV_E10=0"],
+              "k1_empty":  ["-DV_K=1", "-DV_N0=0", "-DV_E00=0", "-DV_E01=0", "-DV_N1=0", "-DV_E10=0"],
+              "k1_p":      ["-DV_K=1", "-DV_N0=1", "-DV_E00=EL_PACKED", "-DV_E01=0", "-DV_N1=0", "-DV_E10=0"],
+              "k1_up_c":   ["-DV_K=1", "-DV_N0=2", "-DV_E00=EL_UPACKED", "-DV_E01=EL_COMMA", "-DV_N1=0", "-DV_E10=0"],
+              "k1_c_fl":   ["-DV_K=1", "-DV_N0=2", "-DV_E00=EL_COMMA", "-DV_E01=EL_FOO_LIST", "-DV_N1=0", "-DV_E10=0"],
+              "k1_fn":     ["-DV_K=1", "-DV_N0=1", "-DV_E00=EL_FOO_NESTED", "-DV_E01=0", "-DV_N1=0", "-DV_E10=0"],
+              "k1_open":   ["-DV_K=1", "-DV_N0=1", "-DV_E00=EL_FOO_OPEN", "-DV_E01=0", "-DV_N1=0", "-DV_E10=0"],
+              "k2_f_up":   ["-DV_K=2", "-DV_N0=1", "-DV_E00=EL_FOO", "-DV_E01=0", "-DV_N1=1", "-DV_E10=EL_UPACKED"],
+              "k2_fl_e":   ["-DV_K=2", "-DV_N0=1", "-DV_E00=EL_FOO_LIST", "-DV_E01=0", "-DV_N1=0", "-DV_E10=0"],
+              "k2_p_open": ["-DV_K=2", "-DV_N0=1", "-DV_E00=EL_PACKED", "-DV_E01=0", "-DV_N1=1", "-DV_E10=EL_FOO_OPEN"]},
+ "canary_variant": "k2_f_up",
  "kind": "bounded",
- "bound": "0..2 specifiers `__attribute__ (( list ))` in a row; list of 0..2 elements, each a comma or one of packed, __packed__, foo, foo(1,1), foo((1)), foo(1 <end of input>; closed by `))`, by a single `)`, or cut off by end of input; followed by `;` or an identifier.  Excluded here (FAILS, see ATTR.gnuattr.syntax): two attributes without a comma between them",
+ "bound": "10 shapes (token kinds of the lists constant per CBMC run; closing tokens, terminator, result object symbolic) of 0..2 specifiers `__attribute__ (( list ))` in a row; list of 0..2 elements, each a comma or one of packed, __packed__, foo, foo(1,1), foo((1)), foo(1 <end of input>; closed by `))`, by a single `)`, or cut off by end of input; followed by `;` or an identifier.  Excluded here (FAILS, see ATTR.gnuattr.syntax): two attributes without a comma between them",
  "timeout": 200, "replay": false,
  "assumes": ["next/peek/consume/expect are token-script stand-ins with pp.c's meaning (attr_common2.h); `allowed` contains packed"]
 }
@@ -32,7 +41,7 @@ harness(void)
 {
 	static struct attr am;
 	struct attr *a;
-	IN(unsigned, in_e00); IN(unsigned, in_e01); IN(unsigned, in_n0); IN(unsigned, in_e10); IN(unsigned, in_n1);
+	unsigned in_e00 = V_E00, in_e01 = V_E01, in_n0 = V_N0, in_e10 = V_E10, in_n1 = V_N1;     /* compile-time case split: fixes the script layout */
 	IN(unsigned, in_end); IN(bool, in_termident); IN(bool, in_hasa); IN(int, in_oldkind);
 	unsigned el[2][2] = {{in_e00, in_e01}, {in_e10, EL_COMMA}}, n[2] = {in_n0, in_n1};
 	unsigned i, j, endpos;
@@ -74,7 +83,7 @@ harness(void)
 #ifdef V_SYNTAX
 	__CPROVER_assume(adjacent && !cut && in_end == END_OK);
 #ifdef VERIF_CANARY
-	__CPROVER_assert(!(in_e00 == EL_FOO && in_e01 == EL_PACKED), "CANARY");
+	__CPROVER_assert(!(in_hasa && in_termident), "CANARY");
 #endif
 #else
 	__CPROVER_assume(!adjacent);                       /* ATTR.gnuattr.syntax */
@@ -94,6 +103,6 @@ harness(void)
 	__CPROVER_assert(IMP(!in_hasa, (int)am.kind == in_oldkind) && am.align == 0, "nothing else is written");
 	__CPROVER_assert(g_eof_next == 0, "end of input is not reached");
 #if defined(VERIF_CANARY) && !defined(V_SYNTAX)
-	__CPROVER_assert(!(in_e00 == EL_FOO_NESTED && in_e01 == EL_COMMA && in_e10 == EL_UPACKED && in_n0 == 2 && in_n1 == 1), "CANARY");
+	__CPROVER_assert(!(in_hasa && in_termident && in_oldkind == 2), "CANARY");
 #endif
 }
